@@ -29,12 +29,27 @@ def _status_of_systemexit(e):
 
 
 def _innermost(tb):
+    # walks the traceback by hand: traceback.extract_tb raises on code objects whose line
+    # table is malformed, and the frame is only auxiliary information
     last = None
-    for fs in traceback.extract_tb(tb):
-        last = fs
+    while tb is not None:
+        last = tb
+        tb = tb.tb_next
     if last is None:
         return None
-    return {"file": last.filename, "line": last.lineno, "text": last.line or "", "func": last.name}
+    code = last.tb_frame.f_code
+    try:
+        line = last.tb_lineno
+    except Exception:
+        line = None
+    text = ""
+    try:
+        import linecache
+        if isinstance(line, int) and line > 0:
+            text = linecache.getline(code.co_filename, line).strip()
+    except Exception:
+        text = ""
+    return {"file": code.co_filename, "line": line if isinstance(line, int) else -1, "text": text, "func": code.co_name}
 
 
 def _run_child(req, out_path):
@@ -76,9 +91,15 @@ def _run_child(req, out_path):
             res["msg"] = str(e)[:300]
         except Exception:
             res["msg"] = "<unprintable>"
-        res["frame"] = _innermost(e.__traceback__)
+        try:
+            res["frame"] = _innermost(e.__traceback__)
+        except BaseException:
+            res["frame"] = None
         if req.get("stderr_path"):
-            traceback.print_exc()
+            try:
+                traceback.print_exc()
+            except BaseException:
+                pass
     try:
         sys.stdout.flush()
         sys.stderr.flush()
